@@ -389,6 +389,57 @@ func nonNeg(v ssa.Value, depth int, seen map[ssa.Value]bool) bool {
 		if strings.HasPrefix(name, "github.com/mattn/go-runewidth.") || strings.HasPrefix(name, "unicode/utf8.RuneCount") || name == "strings.Count" {
 			return true
 		}
+		// a function of the repository whose every return statement returns a non-negative value
+		if callee := x.Call.StaticCallee(); callee != nil && callee.Pkg != nil && callee.Pkg.Pkg.Path() == modPath && len(callee.Blocks) > 0 && callee.Signature.Results().Len() == 1 {
+			all, n := true, 0
+			for _, b := range callee.Blocks {
+				if ret, ok := b.Instrs[len(b.Instrs)-1].(*ssa.Return); ok && len(ret.Results) == 1 {
+					n++
+					if !nonNeg(ret.Results[0], depth+1, seen) {
+						all = false
+					}
+				}
+			}
+			if all && n > 0 {
+				return true
+			}
+		}
+	case *ssa.Extract:
+		// a result of a function of the repository that is non-negative on every return
+		if call, ok := x.Tuple.(*ssa.Call); ok {
+			if callee := call.Call.StaticCallee(); callee != nil && callee.Pkg != nil && callee.Pkg.Pkg.Path() == modPath && len(callee.Blocks) > 0 {
+				all, n := true, 0
+				for _, b := range callee.Blocks {
+					if ret, ok := b.Instrs[len(b.Instrs)-1].(*ssa.Return); ok && x.Index < len(ret.Results) {
+						n++
+						if !nonNeg(ret.Results[x.Index], depth+1, seen) {
+							all = false
+						}
+					}
+				}
+				if all && n > 0 {
+					return true
+				}
+			}
+		}
+	case *ssa.UnOp:
+		// Offset, Line and Column of a text/scanner position are never negative
+		if x.Op == token.MUL {
+			if fa, ok := x.X.(*ssa.FieldAddr); ok {
+				if f := fieldAddrName(fa); f == "scanner.Position.Offset" || f == "scanner.Position.Line" || f == "scanner.Position.Column" {
+					return true
+				}
+			}
+		}
+	case *ssa.Field:
+		if st, ok := x.X.Type().Underlying().(*types.Struct); ok {
+			if nt, ok := x.X.Type().(*types.Named); ok && nt.Obj().Pkg() != nil && nt.Obj().Pkg().Path() == "text/scanner" && nt.Obj().Name() == "Position" {
+				switch st.Field(x.Field).Name() {
+				case "Offset", "Line", "Column":
+					return true
+				}
+			}
+		}
 	case *ssa.Phi:
 		for _, e := range x.Edges {
 			if !nonNeg(e, depth+1, seen) {
@@ -399,6 +450,19 @@ func nonNeg(v ssa.Value, depth int, seen map[ssa.Value]bool) bool {
 	case *ssa.BinOp:
 		switch x.Op {
 		case token.ADD, token.MUL:
+			if x.Op == token.ADD {
+				// a failed search returns -1: search + k is non-negative for k >= 1
+				for _, pr := range [][2]ssa.Value{{x.X, x.Y}, {x.Y, x.X}} {
+					if call, ok := pr[0].(*ssa.Call); ok {
+						name := calleeFullName(&call.Call)
+						if strings.HasPrefix(name, "strings.Index") || strings.HasPrefix(name, "strings.LastIndex") || strings.HasPrefix(name, "bytes.Index") || strings.HasPrefix(name, "bytes.LastIndex") {
+							if k, ok := constInt(pr[1]); ok && k >= 1 {
+								return true
+							}
+						}
+					}
+				}
+			}
 			return nonNeg(x.X, depth+1, seen) && nonNeg(x.Y, depth+1, seen)
 		case token.SUB:
 			// x - k where the subtraction is only executed when x > k-1, or x = len(text of known minimal length)
@@ -900,7 +964,7 @@ func runC15ConfPat(c *Ctx) {
 	for i, call := range compiled {
 		construct := fmt.Sprintf("(*IgnorePatterns).UnmarshalYAML|source of regexp#%d", i+1)
 		f, base := fieldLoad(call.Call.Args[0])
-		_, _, isElem := elemIndex(base)
+		isElem := elemOrItsAlias(base, 0)
 		if f == "yaml.Node.Value" && isElem && blockInCycle(call.Block()) {
 			c.ok(construct, call.Pos(), "compiled from the Value of one element of the sequence, once per element")
 		} else {
@@ -1126,4 +1190,27 @@ func runC01ExtPanic(c *Ctx) {
 	if n == 0 {
 		c.undecided("cron.Parser.Parse|calls", token.NoPos, "no call of the cron parser found")
 	}
+}
+
+// elemOrItsAlias: the node is one element of a sequence, or the node that element is an alias of (yaml.Node.Alias), or a
+// join of the two.
+func elemOrItsAlias(v ssa.Value, depth int) bool {
+	if depth > 4 {
+		return false
+	}
+	if _, _, ok := elemIndex(v); ok {
+		return true
+	}
+	if ph, ok := v.(*ssa.Phi); ok {
+		for _, e := range ph.Edges {
+			if !elemOrItsAlias(e, depth+1) {
+				return false
+			}
+		}
+		return len(ph.Edges) > 0
+	}
+	if f, base := fieldLoad(v); f == "yaml.Node.Alias" {
+		return elemOrItsAlias(base, depth+1)
+	}
+	return false
 }
